@@ -162,6 +162,8 @@ def rule_wrap(ctx):
 def run(ctx):
     for fl in flavours(ctx):
         ctx.unit = fl
+        ctx.doc('C14.5', 'native API forwarding: each public entry point of this property reaches the implementation of the same name with its parameters in order and returns its result (sibling slips such as trylock -> lock, signal -> broadcast, swapped arguments)')
+        lib.native_forwarding(ctx, 'C14.5', fl, lambda n: n == 'myth_once', floor=2)
         rule_body(ctx, fl)
     ctx.unit = 'wrap'
     rule_wrap(ctx)
@@ -169,6 +171,8 @@ def run(ctx):
 
 SYNC = 'src/myth_sync_func.h'
 MUTANTS = [
+    {'name': 'native myth_once passes its arguments to the wrong body', 'expect': 'C14.5',
+     'edits': [('src/myth_if_native.c', "  return myth_once_body(once_control, init_routine);", "  init_routine();\n  return 0;")]},
     {'name': 'a caller that reads init goes straight to waiting (sweep M0431)', 'expect': 'C14.1',
      'edits': [(SYNC, "  if (s == myth_once_state_init) {\n   if (myth_once_try_set(", "  if (!(s == myth_once_state_init)) {\n   if (myth_once_try_set(")]},
     {'name': 'init routine called before the election', 'expect': 'C14.1',
